@@ -232,6 +232,12 @@ Theorem support_restriction_spec : forall ov k1 kv k2 co0 m u1 u2 side c,
      = g_val f (u1 ++ r_fixed ov f (length k1) side :: u2) c.
 Proof. exact restricted_boundary_is_trace_l. Qed.
 
+(* ... and its support is the support of f with the entry of the boundary's own axis removed: a
+   restriction along the remaining axes is kept, whichever route boundary() takes *)
+Theorem boundary_support_spec : forall ov f axis side,
+  r_boundary_support ov f axis side = remove_at axis (support_of ov f).
+Proof. exact boundary_support_spec_l. Qed.
+
 (* _BoundaryFunction of ANY function of an xyz coordinate list (any coordinate and value types:
    splines, NURBS, callables, compositions): both routes evaluate val at the point whose coordinate number
    len(x)-axis is the fixed one and whose remaining coordinates are x in order *)
@@ -429,6 +435,7 @@ Print Assumptions boundary_is_trace.
 Print Assumptions nurbs_boundary_is_trace.
 Print Assumptions boundary_routes_coincide.
 Print Assumptions support_restriction_spec.
+Print Assumptions boundary_support_spec.
 Print Assumptions boundary_function_is_trace.
 Print Assumptions copy_spec.
 Print Assumptions cylinderize_spec.
